@@ -198,12 +198,18 @@ func c18RunWa(head []string, evs []string, st *Stack) (obs string) {
 	f := &c18WrFix{quit: make(chan struct{}), plan: map[string]c18WrDial{}, nonce: uint64(time.Now().UnixNano())}
 	refuse := map[string]bool{} // "ip:port" -> dials refused
 	refused := map[string]int{}
+	banned := map[string]bool{} // addresses the connection manager had banned (addrManager.BanAddress returned)
 	w, err := p2p.VerifC18NewWired(p2p.VerifC18WiredCfg{
 		Services:          st.Services,
 		Target:            target,
 		Retry:             2 * time.Millisecond,
 		RealAddressSource: true,
 		Book:              book,
+		OnBan: func(addr string) {
+			f.mu.Lock()
+			banned[addr] = true
+			f.mu.Unlock()
+		},
 		Dial: func(a net.Addr) (net.Conn, error) {
 			f.mu.Lock()
 			defer f.mu.Unlock()
@@ -379,8 +385,8 @@ func c18RunWa(head []string, evs []string, st *Stack) (obs string) {
 			}
 			if usable() < target && !blocked {
 				// nothing else can fill the free slots: give the manager time to run into the ban of
-				// every address that has gone away (the close itself is failure no. 1 of a connected one)
-				deadline := time.Now().Add(1500 * time.Millisecond)
+				// every address that has gone away
+				deadline := time.Now().Add(600 * time.Millisecond)
 				for time.Now().Before(deadline) {
 					f.mu.Lock()
 					done := openCount() >= target
@@ -388,7 +394,7 @@ func c18RunWa(head []string, evs []string, st *Stack) (obs string) {
 						done = true
 						for k, isGone := range gone {
 							ga := known[k]
-							if isGone && refused[(&net.TCPAddr{IP: ga.ip(), Port: ga.port}).String()] < mf-1 {
+							if isGone && !banned[(&net.TCPAddr{IP: ga.ip(), Port: ga.port}).String()] {
 								done = false
 							}
 						}
